@@ -97,6 +97,15 @@ def check(repo: Repo, rep: Report) -> None:
                 a0 = u(c.args[0]).replace(" ", "")
                 rest = [u(a) for a in c.args[1:]] + [u(k.value) for k in c.keywords]
                 ok = a0.endswith("-self.now") and rest == [sa.params[2], sa.params[3]]
+                # the minuend is the due time converted by to_datetime -- nothing else applied to it
+                left = c.args[0].left if isinstance(c.args[0], ast.BinOp) else None
+                conv = f"self.to_datetime({sa.params[1]})"
+                if isinstance(left, ast.Name):
+                    defs = [x.node.value for x in sites(sa) if isinstance(x.node, (ast.Assign, ast.AnnAssign)) and x.node.value is not None
+                            and u(x.node.targets[0] if isinstance(x.node, ast.Assign) else x.node.target) == left.id]
+                    ok = ok and (not defs or all(u(d) == conv for d in defs))
+                elif left is not None:
+                    ok = ok and u(left) == conv
         rep.ob("D1-delegation", sa, f"{cls}.schedule_absolute = schedule_relative(duetime - now, action, state)", ok,
                "the absolute form does not schedule the remaining delay with the same action and state")
     for mname in ("schedule", "schedule_relative"):
